@@ -15,12 +15,16 @@ STRUCT = dict(n_defs=(4, 14), n_txn=(1, 6), n_listen=(0, 3), drops=0.8, gcs=0.5,
 STATIC = dict(STRUCT, n_txn=(0, 0), no_once=False, weights=W(STRUCT["weights"], once=1.5, value=0))
 
 
+# definitions at top level interleaved with drops and dumps (every constructor call ends with a collection of its own)
+TOPLEVEL = dict(STRUCT, n_txn=(0, 2), toplevel_mix=True)
+
+
 def gen(tier, seed, pid):
     rng = random.Random(seed * 104729 + int(pid[1:]))
     n = 600 if tier == "quick" else 20000
     out = []
     for k in range(n):
-        kw = dict(STATIC if k % 4 == 3 else STRUCT)
+        kw = dict(STATIC if k % 4 == 3 else TOPLEVEL if k % 4 == 1 else STRUCT)
         kw["leakcheck"] = (k % 3 == 0)
         out.append(apigen.generate(rng, apigen.profile(**kw)))
     return out
